@@ -490,38 +490,46 @@ inductive PVRes
   | accepted (value : Nat) (payload : Option Payload)
 deriving DecidableEq, Repr, Inhabited
 
+/-- voteVerified at `proposalTracker` -/
+def PTracker.voteVerified (t : PTracker) (v : PVote) : PTracker × PVRes :=
+  if t.duplicate.contains v.sender then (t, .filtered false)
+  else
+    let t := { t with duplicate := t.duplicate ++ [v.sender] }
+    let acc := t.freezer.accept v
+    let t := { t with freezer := { t.freezer with lowestLate := acc.1.lowestLate } }
+    if t.staging ≠ 0 then (t, .filtered acc.2.1)
+    else if acc.2.2 then (t, .filtered acc.2.1)
+    else ({ t with freezer := acc.1 }, .accepted v.value none)
+
+/-- `proposalTrackerContract.post` on a voteVerified input: true = violated -/
+def ptVoteBad (c : PTContract) (res : PVRes) (v : PVote) : Bool :=
+  let accepted := match res with | .accepted _ _ => true | .filtered _ => false
+  let acceptedSame := match res with | .accepted w _ => w == v.value | .filtered _ => false
+  let first := !c.sawOneVote && !c.froze && !c.sawSoft && !c.sawCert
+  (first && !(accepted && acceptedSame)) || ((c.froze || c.sawSoft || c.sawCert) && accepted)
+
 /-- voteVerified at `proposalTracker` behind `proposalTrackerContract` -/
 def PeriodR.pvoteVerified (pr : PeriodR) (v : PVote) : Except Panic (PeriodR × PVRes) :=
-  let t := pr.ptracker
-  let (t', res) : PTracker × PVRes :=
-    if t.duplicate.contains v.sender then (t, .filtered false)
-    else
-      let t := { t with duplicate := t.duplicate ++ [v.sender] }
-      let (nf, better, err) := t.freezer.accept v
-      let t := { t with freezer := { t.freezer with lowestLate := nf.lowestLate } }
-      if t.staging ≠ 0 then (t, .filtered better)
-      else if err then (t, .filtered better)
-      else ({ t with freezer := nf }, .accepted v.value none)
-  let c := pr.ptContract
-  let accepted := match res with | .accepted _ _ => true | _ => false
-  let acceptedSame := match res with | .accepted w _ => w == v.value | _ => false
-  let first := !c.sawOneVote && !c.froze && !c.sawSoft && !c.sawCert
-  if first && !(accepted && acceptedSame) then .error (.contract 3)
-  else if (c.froze || c.sawSoft || c.sawCert) && accepted then .error (.contract 3)
-  else .ok ({ pr with ptracker := t', ptContract := { c with sawOneVote := true } }, res)
+  let r := pr.ptracker.voteVerified v
+  if ptVoteBad pr.ptContract r.2 v then .error (.contract 3)
+  else .ok ({ pr with ptracker := r.1, ptContract := { pr.ptContract with sawOneVote := true } }, r.2)
 
 /-- voteFilterRequest at `proposalTracker`: true = voteFiltered (duplicate sender) -/
 def PeriodR.pvoteDup (pr : PeriodR) (sender : Nat) : Bool := pr.ptracker.duplicate.contains sender
 
+/-- `t.Freezer.Lowest.R.Proposal` (bottom while nothing was seen) -/
+def Seeker.lowestValue (s : Seeker) : Nat :=
+  match s.lowest with
+  | some l => l.value
+  | none => 0
+
 /-- proposalFrozen -/
 def PeriodR.freeze (pr : PeriodR) : Except Panic (PeriodR × Nat) :=
   if pr.ptContract.froze then .error (.contract 2)
+  else if !pr.ptContract.sawOneVote && pr.ptracker.freezer.lowestValue ≠ 0 then .error (.contract 3)
   else
-    let v := match pr.ptracker.freezer.lowest with | some l => l.value | none => 0
-    if !pr.ptContract.sawOneVote && v ≠ 0 then .error (.contract 3)
-    else
-      .ok ({ pr with ptracker := { pr.ptracker with freezer := { pr.ptracker.freezer with frozen := true } },
-                     ptContract := { pr.ptContract with froze := true } }, v)
+    .ok ({ pr with ptracker := { pr.ptracker with freezer := { pr.ptracker.freezer with frozen := true } },
+                   ptContract := { pr.ptContract with froze := true } }, pr.ptracker.freezer.lowestValue)
 
 /-- softThreshold / certThreshold at `proposalTracker`: sets Staging -/
 def PeriodR.stage (pr : PeriodR) (kind value : Nat) : Except Panic (PeriodR × Unit) :=
